@@ -37,7 +37,8 @@ Record sim (a b : tables) : Prop := mk_sim {
   sim_impls : impls a = impls b;
   sim_ctors : ctors a = ctors b;
   sim_dtors : dtors a = dtors b;
-  sim_statics : istatics a = istatics b
+  sim_statics : istatics a = istatics b;
+  sim_loaded : loaded a = loaded b
 }.
 Definition rsim (r1 r2 : result) : Prop :=
   match r1, r2 with
@@ -60,7 +61,7 @@ Qed.
 (* the same step on both sides *)
 Lemma sim_apply : forall o a b, sim a b -> rsim (apply_op a o) (apply_op b o).
 Proof.
-  intros o a b [Hf Hv Hs Hi Ht He Him Hc Hd Hst].
+  intros o a b [Hf Hv Hs Hi Ht He Him Hc Hd Hst Hl].
   destruct o; simpl;
     try (constructor; simpl; intros; auto using lookup_bind_congr'; congruence).
   - (* OEnum *) rewrite He. destruct (lookup k (enums b)).
@@ -73,19 +74,18 @@ Proof.
       constructor; simpl; intros; auto; try congruence. apply lookup_bind_all_congr; auto.
 Qed.
 
-(* steps only the importing side performs: qualified bindings and the loaded_modules mark *)
+(* steps only the importing side performs: the qualified bindings *)
 Definition import_only (o : op) : bool :=
   match o with
   | OFunc k _ => dotted k
   | OVar k _ _ => dotted k
-  | OLoaded _ => true
   | _ => false
   end.
 
 Lemma sim_import_only : forall o a b, import_only o = true -> sim a b ->
   exists a', apply_op a o = Ok a' /\ sim a' b.
 Proof.
-  intros o a b H [Hf Hv Hs Hi Ht He Him Hc Hd Hst].
+  intros o a b H [Hf Hv Hs Hi Ht He Him Hc Hd Hst Hl].
   destruct o; simpl in H; try discriminate; simpl; eexists; (split; [reflexivity|]);
     constructor; simpl; intros; auto.
   - rewrite lookup_bind_neq; auto. intro; subst; congruence.
@@ -110,71 +110,69 @@ Proof. induction l; simpl; [reflexivity|]. now rewrite erase_app, IHl. Qed.
 
 Lemma erase_sync : forall d, erase (sync_ops d) = sync_ops d.
 Proof.
-  intros. unfold sync_ops. rewrite !erase_app. f_equal; [|f_equal].
+  intros. unfold sync_ops. rewrite !erase_app. f_equal; [|f_equal; [|f_equal]].
+  - induction (im_statics d); simpl; [reflexivity|]. unfold erase in *. simpl. now rewrite IHl.
   - induction (im_ctors d); simpl; [reflexivity|]. unfold erase in *. simpl. now rewrite IHl.
   - now destruct (im_dtor d).
 Qed.
+Lemma erase_syncs : forall l, erase (flat_map sync_ops l) = flat_map local_impl_ops l.
+Proof. induction l; simpl; [reflexivity|]. now rewrite erase_app, erase_sync, IHl. Qed.
 
-(* side conditions under which the two registrations coincide *)
-Definition no_arrays (sd : sdef) : Prop := forall m, In m (sd_members sd) -> mem_array m = None.
+(* side conditions: declared names are identifiers, a const has an initialiser *)
 Definition decl_ok (d : decl) : Prop :=
   match d with
   | DFunc n _ => dotted n = false
   | DVar n c init => dotted n = false /\ (c = true -> init <> None)
-  | DStruct _ sd => no_arrays sd
   | _ => True
   end.
+Definition names_ok (fs : fsys) : Prop :=
+  forall q m d, resolve fs q = Some m -> In (SDecl true d) m -> decl_ok d.
 
-Lemma import_sdef_id : forall sd, no_arrays sd -> import_sdef sd = sd.
+Lemma erase_import_stmt : forall p e d, (e = true -> decl_ok d) ->
+  erase (import_stmt_ops p (SDecl e d)) = inline_stmt_ops (SDecl e d).
 Proof.
-  intros [g ms] H. unfold import_sdef. simpl. f_equal. unfold no_arrays in H. simpl in H.
-  induction ms as [|[n a] ms IH]; simpl; [reflexivity|].
-  rewrite IH by (intros; apply H; now right).
-  assert (Ha : a = None) by (apply (H (mkMember n a)); now left). subst a. reflexivity.
-Qed.
-
-Lemma erase_import_decl : forall p d, decl_ok d ->
-  erase (import_decl_ops p d) = match d with DImpl _ => [] | _ => local_decl_ops d end.
-Proof.
-  intros p d H. destruct d; simpl in *; unfold erase; simpl; try reflexivity.
+  intros p [|] d H; [|reflexivity]. specialize (H eq_refl).
+  destruct d; simpl in *; unfold erase; simpl; try reflexivity.
   - rewrite H, qualified_dotted. reflexivity.
-  - now rewrite import_sdef_id.
   - destruct H as [H1 H2]. destruct is_const, init; simpl; rewrite ?H1, ?qualified_dotted; try reflexivity.
     exfalso. now apply H2.
 Qed.
 
-Lemma erase_import_stmts : forall p m, (forall d, In (SDecl true d) m -> decl_ok d) ->
-  erase (flat_map (import_stmt_ops p) m) = flat_map local_decl_ops (exported_decls m).
+Lemma sim_stmts : forall imp inl p,
+  (forall a b q, sim a b -> rsim (imp a q) (inl b q)) ->
+  forall l a b, sim a b -> (forall d, In (SDecl true d) l -> decl_ok d) ->
+  rsim (run_stmts imp p l a) (inline_stmts inl l b).
 Proof.
-  induction m as [|s m IH]; intros H; simpl; [reflexivity|].
-  rewrite erase_app, IH by (intros; apply H; now right).
-  destruct s as [q|[|] d]; simpl; try reflexivity.
-  rewrite erase_import_decl by (apply H; now left).
-  destruct d; simpl; rewrite ?app_nil_r; reflexivity.
+  intros imp inl p Hi. induction l as [|s l IH]; intros a b H Hok; [exact H|].
+  destruct s as [q|e d]; cbn [run_stmts inline_stmts].
+  - pose proof (Hi a b q H) as S. destruct (imp a q), (inl b q); simpl in S; try tauto.
+    apply IH; auto. intros. apply Hok. now right.
+  - pose proof (sim_run (import_stmt_ops p (SDecl e d)) a b H) as S.
+    rewrite erase_import_stmt in S by (intros ->; apply Hok; now left).
+    destruct (run_ops (import_stmt_ops p (SDecl e d)) a), (run_ops (inline_stmt_ops (SDecl e d)) b);
+      simpl in S; try tauto.
+    apply IH; auto. intros. apply Hok. now right.
 Qed.
 
-Lemma erase_module_ops : forall fuel fs p m,
-  (forall d, In (SDecl true d) m -> decl_ok d) ->
-  (forall d, In d (parser_impls fuel fs m) -> im_statics d = []) ->
-  erase (module_ops fuel fs p m) = inline_ops fuel fs m.
+Lemma sim_mark : forall p a b, sim a b -> sim (mark_loaded p a) (mark_loaded p b).
+Proof. intros p a b []. constructor; simpl; auto. congruence. Qed.
+
+Lemma sim_import : forall pf fs, names_ok fs -> forall fuel a b p, sim a b ->
+  rsim (handle_import fuel pf fs a p) (handle_inline fuel pf fs b p).
 Proof.
-  intros fuel fs p m H1 H2. unfold module_ops, inline_ops. rewrite !erase_app.
-  rewrite erase_import_stmts by assumption. f_equal.
-  rewrite erase_flat_map. unfold erase at 2. simpl. rewrite app_nil_r.
-  induction (parser_impls fuel fs m) as [|d l IH]; simpl; [reflexivity|].
-  rewrite IH by (intros; apply H2; now right). f_equal.
-  rewrite erase_sync. unfold local_impl_ops. rewrite H2 by now left. reflexivity.
+  intros pf fs Hok. induction fuel as [|f IH]; intros a b p H; simpl;
+    rewrite <- (sim_loaded _ _ H); destruct (mem p (loaded a)) eqn:M; try exact H; [reflexivity|].
+  destruct (resolve fs p) as [m|] eqn:R; [|reflexivity].
+  pose proof (sim_stmts (handle_import f pf fs) (handle_inline f pf fs) p IH m _ _ (sim_mark p a b H)
+                (fun d Hd => Hok p m d R Hd)) as S.
+  destruct (run_stmts _ _ _ _), (inline_stmts _ _ _); simpl in S; try tauto.
+  pose proof (sim_run (flat_map sync_ops (parser_impls pf fs m)) _ _ S) as S2.
+  rewrite erase_syncs in S2. exact S2.
 Qed.
 
-Lemma imported_like_inlined_l : forall fuel fs t p m,
-  mem p (loaded t) = false -> resolve fs p = Some m ->
-  (forall d, In (SDecl true d) m -> decl_ok d) ->
-  (forall d, In d (parser_impls fuel fs m) -> im_statics d = []) ->
-  rsim (handle_import fuel fs t p) (run_ops (inline_ops fuel fs m) t).
-Proof.
-  intros fuel fs t p m M R H1 H2. unfold handle_import. rewrite M. unfold path_ops. rewrite R.
-  rewrite <- (erase_module_ops fuel fs p m H1 H2). apply sim_run. apply sim_refl.
-Qed.
+Lemma imported_like_inlined_l : forall fuel pf fs t p, names_ok fs ->
+  rsim (handle_import fuel pf fs t p) (handle_inline fuel pf fs t p).
+Proof. intros. apply sim_import; auto using sim_refl. Qed.
 
 (* ---------- dotted module paths *)
 Lemma map_str_app : forall f a b, map_str f (a +++ b) = map_str f a +++ map_str f b.
@@ -206,19 +204,14 @@ Proof.
     rewrite no_dot_map_id by (apply H; now left). reflexivity.
 Qed.
 
+(* a module path as the parser produces it (identifiers joined by dots) contains no '/' *)
 Lemma file_path_dotted : forall p,
-  contains ".cb" p = false -> contains "." p = true -> contains "/" p = false -> contains ".." p = false ->
+  contains "." p = true -> contains "/" p = false -> contains ".." p = false ->
   file_path_of p = map_str dot_to_slash p +++ ".cb".
-Proof. intros p H1 H2 H3 H4. unfold file_path_of. now rewrite H1, H2, H3, H4. Qed.
+Proof. intros p H2 H3 H4. unfold file_path_of. now rewrite H2, H3, H4, !andb_false_r. Qed.
 
-Lemma file_path_plain : forall p, contains "." p = false -> file_path_of p = p +++ ".cb".
-Proof.
-  intros p H. unfold file_path_of.
-  assert (contains ".cb" p = false) as ->.
-  { induction p; [reflexivity|]. rewrite contains_dot_cons in H. cbn [contains String.prefix].
-    destruct (ascii_dec "."%char a) as [E|N]; [discriminate|]. auto. }
-  now rewrite H.
-Qed.
+Lemma file_path_plain : forall p, contains "." p = false -> contains "/" p = false -> file_path_of p = p +++ ".cb".
+Proof. intros p H H3. unfold file_path_of. now rewrite H, H3, !andb_false_r. Qed.
 
 Lemma resolve_first_candidate : forall fs p m, lookup (file_path_of p) fs = Some m -> resolve fs p = Some m.
 Proof.
@@ -226,21 +219,21 @@ Proof.
   destruct (String.prefix "../" (file_path_of p) || String.prefix "./" (file_path_of p)); simpl; now rewrite H.
 Qed.
 
-Lemma unresolved_is_error : forall fuel fs t p, mem p (loaded t) = false -> resolve fs p = None ->
-  handle_import fuel fs t p = Err (EOpen p (file_path_of p)).
-Proof. intros. unfold handle_import, path_ops. now rewrite H, H0. Qed.
+Lemma unresolved_is_error : forall fuel pf fs t p, mem p (loaded t) = false -> resolve fs p = None ->
+  handle_import (S fuel) pf fs t p = Err (EOpen p (file_path_of p)).
+Proof. intros. simpl. now rewrite H, H0. Qed.
 
 Lemma dotted_path_resolution_l : forall segs fs m,
   (forall s, In s segs -> contains "." s = false) ->
   let p := String.concat "." segs in
-  contains ".cb" p = false -> contains "." p = true -> contains "/" p = false -> contains ".." p = false ->
+  contains "." p = true -> contains "/" p = false -> contains ".." p = false ->
   lookup (String.concat "/" segs +++ ".cb") fs = Some m ->
   resolve fs p = Some m.
 Proof.
-  intros segs fs m Hs p H1 H2 H3 H4 Hl. apply resolve_first_candidate.
-  rewrite (file_path_dotted p H1 H2 H3 H4). unfold p. now rewrite (dots_become_slashes segs Hs).
+  intros segs fs m Hs p H2 H3 H4 Hl. apply resolve_first_candidate.
+  rewrite (file_path_dotted p H2 H3 H4). unfold p. now rewrite (dots_become_slashes segs Hs).
 Qed.
 
 Lemma undotted_path_resolution_l : forall p fs m,
-  contains "." p = false -> lookup (p +++ ".cb") fs = Some m -> resolve fs p = Some m.
-Proof. intros p fs m H Hl. apply resolve_first_candidate. now rewrite (file_path_plain p H). Qed.
+  contains "." p = false -> contains "/" p = false -> lookup (p +++ ".cb") fs = Some m -> resolve fs p = Some m.
+Proof. intros p fs m H H3 Hl. apply resolve_first_candidate. now rewrite (file_path_plain p H H3). Qed.
